@@ -863,8 +863,13 @@ class StaticVector : public StaticVectorBase<T, SizeType> {
 
   template <class VectorType>
   void swap2_impl(VectorType &o) noexcept(is_swap_noexcept<T>::value) {
+    // Sizes are known to fit in each other size type here (adjustEachOtherCapacity has checked it).
+    // Use setSize and not a swap of the size fields: a SmallVector encodes its small state in them.
+    const SizeType oSize = static_cast<SizeType>(o.size());
+    const typename VectorType::size_type mySize = static_cast<typename VectorType::size_type>(this->size());
     swap_deep(this->begin(), this->size(), o.begin(), o.size());
-    swap_sizetype(this->msize(), o.msize());
+    this->setSize(oSize);
+    o.setSize(mySize);
   }
 
   // Adjust capacity methods take uintmax_t as parameter to check for size_type overflow
@@ -988,19 +993,42 @@ class DynamicVector : public DynamicVectorBaseTypeDispatcher<T, Alloc, SizeType,
   template <class OSizeType, class OGrowingPolicy>
   void swap2_impl(StaticVector<T, OSizeType, OGrowingPolicy> &o) noexcept(is_swap_noexcept<T>::value) {
     // Here 'o' cannot grow so we cannot swap any dynamic storage. Deeply swap all elements
+    const SizeType oSize = static_cast<SizeType>(o.size());
+    const OSizeType mySize = static_cast<OSizeType>(this->size());
     swap_deep(this->begin(), this->size(), o.begin(), o.size());
-    swap_sizetype(this->msize(), o.msize());
+    this->setSize(oSize);  // setSize maintains the encoding of the small state in the size fields
+    o.setSize(mySize);
   }
 
   template <class OAlloc, class OSizeType, bool OWithInlineElems>
   void swap2_impl(DynamicVector<T, OAlloc, OSizeType, OWithInlineElems> &o) noexcept(is_swap_noexcept<T>::value) {
-    if (this->canSwapDynStorage(o)) {
+    // All sizes and capacities are known to fit in each other size type here (see adjustEachOtherCapacity)
+    const SizeType oSize = static_cast<SizeType>(o.size());
+    const OSizeType mySize = static_cast<OSizeType>(this->size());
+    if (this->canSwapDynStorageWith(o)) {
+      const SizeType oCapa = static_cast<SizeType>(o.capacity());
+      const OSizeType myCapa = static_cast<OSizeType>(this->capacity());
       this->swapDynStorage(o);
-      swap_sizetype(this->mcapacity(), o.mcapacity());
+      // Both vectors are in large state. Set the sizes before the capacities, as the state of a SmallVector is
+      // deduced from the comparison of these two fields.
+      this->msize() = oSize;
+      o.msize() = mySize;
+      this->mcapacity() = oCapa;
+      o.mcapacity() = myCapa;
     } else {
       swap_deep(this->begin(), this->size(), o.begin(), o.size());
+      this->setSize(oSize);  // setSize maintains the encoding of the small state in the size fields
+      o.setSize(mySize);
     }
-    swap_sizetype(this->msize(), o.msize());
+  }
+
+  /// Dynamic storages can be exchanged only if, in addition, each capacity fits in the size type of the other vector
+  template <class VectorType>
+  bool canSwapDynStorageWith(VectorType &o) const noexcept {
+    return this->canSwapDynStorage(o) &&
+           static_cast<uintmax_t>(o.capacity()) <= static_cast<uintmax_t>(std::numeric_limits<SizeType>::max()) &&
+           static_cast<uintmax_t>(this->capacity()) <=
+               static_cast<uintmax_t>(std::numeric_limits<typename VectorType::size_type>::max());
   }
 
   // Adjust capacity methods take uintmax_t as parameter to check for size_type overflow
@@ -1051,7 +1079,7 @@ class DynamicVector : public DynamicVectorBaseTypeDispatcher<T, Alloc, SizeType,
   /// (as the two size types may differ we should use LargestSizeType to avoid overflows)
   template <class VectorType>
   void adjustEachOtherCapacity(VectorType &o) {
-    if (!this->canSwapDynStorage(o)) {
+    if (!this->canSwapDynStorageWith(o)) {
       adjustCapacity(o.size());
       o.adjustCapacity(this->size());
     }
